@@ -73,6 +73,7 @@ Variables (s s' : sys) (o : op) (mo : sobs).
 Hypothesis Hs : gstep g s o = (s', mo).
 Hypothesis HI : Inv g s.
 Hypothesis HP : ps_pcap (s_ps s) = g_pcap g.
+Hypothesis HT : g_timeout g = 0 -> s_tasks s = [].
 Let m := mon_of g s.
 Let x := obs_of g s' mo.
 
@@ -208,7 +209,7 @@ Proof.
   destruct (is_hi t) eqn:Hh; [|reflexivity]. cbn [negb orb]. apply orb_true_iff. right.
   apply in_dump in Hat. destruct Hat as [e [He [Hp [Ha Ht]]]].
   rewrite E, Ec, consume_book in He. rewrite (peer_conn g c cn Hcn) in *.
-  rewrite <- Ht in Hh. destruct (consumed_source _ _ _ _ _ e He Hp Hh) as [w [Hw [Hid Hsfx]]].
+  rewrite <- Ht in Hh. destruct (consumed_source _ _ _ _ _ _ e He Hp Hh) as [w [Hw [Hid Hsfx]]].
   apply (allowed_intro (c_peer cn) cs m0 cn a w); try assumption; [reflexivity|congruence].
 Qed.
 
@@ -266,13 +267,24 @@ Proof.
     intros e He Hp. apply Z.eqb_neq. now apply H.
 Qed.
 
-Lemma c_wait : cl_wait g m o x = true.
+(* no wait channel is open in s' *)
+Lemma all_closed_obs : (forall ch, ~ In (ch, false) (s_chans s')) -> forallb (fun b => b) (wo_chans x) = true.
 Proof.
-  unfold cl_wait. destruct o as [| | | | | | |d] eqn:Eo; try reflexivity.
-  destruct HI as [_ Hw _]. pose proof (timeout_all_closed g s d s' mo Hs Hw) as Hc.
-  apply forallb_forall. intros b Hb. unfold x in Hb. cbn [wo_chans obs_of] in Hb.
+  intros Hc. apply forallb_forall. intros b Hb. unfold x in Hb. cbn [wo_chans obs_of] in Hb.
   apply in_map_iff in Hb. destruct Hb as [[ch b'] [E Hi]]. cbn in E. subst b'. apply in_rev in Hi.
   destruct b; [reflexivity|]. exfalso. now apply (Hc ch).
+Qed.
+
+Lemma c_wait : cl_wait g m o x = true.
+Proof.
+  assert (Z0 : g_timeout g = 0 -> forallb (fun b => b) (wo_chans x) = true).
+  { intros Ht. apply all_closed_obs. intros ch Hi.
+    pose proof (step_inv g s o s' mo Hs HI) as [_ Hw' _]. apply Hw' in Hi.
+    rewrite (step_notasks g s o s' mo Hs Ht (HT Ht)) in Hi. destruct Hi. }
+  assert (G : negb (g_timeout g =? 0) || forallb (fun b => b) (wo_chans x) = true).
+  { destruct (g_timeout g =? 0) eqn:E; [|reflexivity]. apply Z.eqb_eq in E. cbn. now apply Z0. }
+  unfold cl_wait. destruct o as [| | | | | | |d] eqn:Eo; try exact G.
+  destruct HI as [_ Hw _]. apply all_closed_obs. exact (timeout_all_closed g s d s' mo Hs Hw).
 Qed.
 
 Lemma c_evrec : cl_evrec g m o x = true.
@@ -341,22 +353,16 @@ Proof.
 Qed.
 
 (* ---- the whole trace ------------------------------------------------------------------------ *)
-Lemma mon_run_model ops : forall s i, Inv g s -> mon_run g (mon_of g s) i (model_trace g s ops) = [].
-Proof.
-  induction ops as [|o ops IH]; intros s i HI; [reflexivity|]. cbn [model_trace].
-  destruct (gstep g s o) as [s' mo] eqn:Hs. cbn [mon_run].
-  rewrite (mon_step_ok s s' o mo Hs HI), (mon_next_ok s s' o mo Hs). apply IH.
-  now apply (step_inv g s o s' mo Hs).
-Qed.
-
 Lemma mon_run_all_model ops : forall s i, Inv g s -> ps_pcap (s_ps s) = g_pcap g ->
+  (g_timeout g = 0 -> s_tasks s = []) ->
   mon_run_all g (mon_of g s) i (model_trace g s ops) = [].
 Proof.
-  induction ops as [|o ops IH]; intros s i HI HP; [reflexivity|]. cbn [model_trace].
+  induction ops as [|o ops IH]; intros s i HI HP HT; [reflexivity|]. cbn [model_trace].
   destruct (gstep g s o) as [s' mo] eqn:Hs. cbn [mon_run_all].
-  rewrite (mon_step_all_ok s s' o mo Hs HI HP), (mon_next_ok s s' o mo Hs). apply IH.
+  rewrite (mon_step_all_ok s s' o mo Hs HI HP HT), (mon_next_ok s s' o mo Hs). apply IH.
   - now apply (step_inv g s o s' mo Hs).
   - now rewrite (step_pcap s o s' mo Hs).
+  - intros Ht. exact (step_notasks g s o s' mo Hs Ht (HT Ht)).
 Qed.
 
 End Mon.
@@ -366,6 +372,12 @@ Lemma run_inv g ops : forall s, Inv g s -> Inv g (run g s ops).
 Proof.
   induction ops as [|o ops IH]; intros s H; [exact H|]. cbn [run]. apply IH.
   destruct (gstep g s o) as [s' mo] eqn:E. cbn [fst]. now apply (step_inv g s o s' mo E).
+Qed.
+
+Lemma run_notasks g ops : g_timeout g = 0 -> forall s, s_tasks s = [] -> s_tasks (run g s ops) = [].
+Proof.
+  intros Ht. induction ops as [|o ops IH]; intros s H; [exact H|]. cbn [run]. apply IH.
+  destruct (gstep g s o) as [s' mo] eqn:E. cbn [fst]. exact (step_notasks g s o s' mo E Ht H).
 Qed.
 
 Lemma init_book_ok : forall l b, book_ok b ->
@@ -394,13 +406,9 @@ Proof.
   - intros q _. right. right. unfold noconn. cbn. apply init_noconn; [exact Hw|]. intros e [].
 Qed.
 
-Lemma monitor_accepts_model_l g ops : init_wf g = true ->
-  mon_run g (mon_init g) 0 (model_trace g (init_sys g) ops) = [].
-Proof. intros Hw. apply (mon_run_model g ops (init_sys g) 0). now apply init_inv. Qed.
-
 Lemma monitor_all_accepts_model_l g ops : init_wf g = true ->
   mon_run_all g (mon_init g) 0 (model_trace g (init_sys g) ops) = [].
-Proof. intros Hw. apply (mon_run_all_model g ops (init_sys g) 0); [now apply init_inv|reflexivity]. Qed.
+Proof. intros Hw. apply (mon_run_all_model g ops (init_sys g) 0); [now apply init_inv|reflexivity|reflexivity]. Qed.
 
 (* finishing a task closes its wait channel, whatever the answer *)
 Lemma finish_closes g s ch c out : alist_get ch (s_tasks s) = Some c ->
